@@ -122,6 +122,80 @@ func runC06(w *World) {
 	// 0 empty, 1 a true prefix of the leader's log, 2 unrelated data, 3 a prefix of the leader's
 	// log followed by writes the leader never saw (a node that was on its own for a while)
 	initial := w.knob("initial", 4)
+	// One run in eight is aimed at the checksum search of a resynchronizing follower: the leader's
+	// log gets a command that ends exactly at the end of the first checksum window, the follower
+	// starts with a true prefix that reaches some 20 KB past it, and the leader acknowledges
+	// another 40 KB before the follower connects.
+	var forcedPrefix []byte
+	if w.knob("boundary", 8) == 1 {
+		for _, a := range clients {
+			a.paused = true
+		}
+		w.Settle()
+		bulkN := 0
+		bulk := func(cmds []Cmd) bool {
+			bulkN++
+			ba := w.addActor(L, simAddr(fmt.Sprintf("127.0.0.1:%d", 50320+bulkN)), cmds)
+			ba.onReply = func(op *Op) { rc.hc.onReply(op, ba.end.c.name) }
+			if !w.Drain(120*time.Second, ba.done) {
+				if !w.failed() {
+					w.harnessErr("boundary set-up: bulk writes did not finish")
+				}
+				return false
+			}
+			w.Settle()
+			return true
+		}
+		mk := func(id string, n int) Cmd {
+			return Cmd{Args: []string{"SET", "kfill", id, "STRING", strings.Repeat("f", n)}}
+		}
+		cur := L.inst.srv.aofsz
+		var fill []Cmd
+		for i := 0; cur+len(encodeCmd(mk("f0000", 1500).Args)) < checksumsz-2500; i++ {
+			c := mk(fmt.Sprintf("f%04d", i), 1500)
+			fill = append(fill, c)
+			cur += len(encodeCmd(c.Args))
+		}
+		// the command that ends exactly on the window boundary
+		for n := checksumsz - cur; n > 0; n-- {
+			if c := mk("pad", n); cur+len(encodeCmd(c.Args)) == checksumsz {
+				fill = append(fill, c)
+				cur = checksumsz
+				break
+			}
+		}
+		for i := 0; i < 15; i++ {
+			fill = append(fill, mk(fmt.Sprintf("t%04d", i), 1500))
+		}
+		if cur != checksumsz || !bulk(fill) {
+			return
+		}
+		if b, err := os.ReadFile(filepath.Join(L.dir, "appendonly.aof")); err == nil && len(b) > checksumsz {
+			if ents, rest, perr := parseLog(b); perr == nil && len(rest) == 0 {
+				onBoundary := false
+				for _, e := range ents {
+					if e.end == checksumsz {
+						onBoundary = true
+					}
+				}
+				if onBoundary {
+					forcedPrefix = b
+					initial = 1
+					w.stat("probe.follower_prefix_with_command_end_on_window_boundary", 1)
+				}
+			}
+		}
+		var more []Cmd
+		for i := 0; i < 25; i++ {
+			more = append(more, mk(fmt.Sprintf("m%04d", i), 1500))
+		}
+		if !bulk(more) {
+			return
+		}
+		for _, a := range clients {
+			a.paused = false
+		}
+	}
 	F.dir = F.freshDir()
 	switch initial {
 	case 1, 3:
@@ -134,6 +208,9 @@ func runC06(w *World) {
 			cut = ents[w.ch.choose(len(ents))].end
 		}
 		own := b[:cut:cut]
+		if forcedPrefix != nil {
+			own, cut = forcedPrefix, len(forcedPrefix)
+		}
 		if initial == 3 {
 			m, _, _, _ := modelFromLog(own, w.now())
 			tail := w.program("divergent", func(r *rand.Rand) []Cmd {
